@@ -21,7 +21,7 @@ func init() {
 		ID:    "C29",
 		Level: "exploration",
 		Rule: "every schema of 1-3 columns over the 11 fixed-width types x row counts 0-3 x align {true,false}, boundary values; " +
-			"SerializeColumnsToRows -> NewRowSeries(...).ToColumnSeries. distinct by (types, rows, align); non-trivial = rows>0",
+			"SerializeColumnsToRows -> NewRowSeries(...).ToColumnSeries, and ColumnSeries.ToRowSeries -> ToColumnSeries. distinct by (types, rows, align); non-trivial = rows>0",
 		Shards:   4,
 		QuickMax: 3 * time3, ThorMax: 10 * time3,
 	}, c29Enum, c29Run)
@@ -75,9 +75,35 @@ func c29Run(c *mc.Ctx, s c29Spec) {
 		c.Violate("panic|deserialize", p)
 		return
 	}
-	if !reflect.DeepEqual(orig.GetColumnNames(), got.GetColumnNames()) {
-		c.Violate("column-names", fmt.Sprintf("%v became %v", orig.GetColumnNames(), got.GetColumnNames()))
+	if !c29Same(c, s, orig, got, "") {
 		return
+	}
+	// the same round trip through the convenience wrapper ColumnSeries.ToRowSeries
+	var got2 *io.ColumnSeries
+	var err2 error
+	if p := safely(func() {
+		var rs *io.RowSeries
+		rs, err2 = c27MakeCS(s.Types, s.Rows, 1).ToRowSeries(*io.NewTimeBucketKey("S/1Min/X"), s.Align)
+		if err2 == nil {
+			_, got2 = rs.ToColumnSeries()
+		}
+	}); p != "" {
+		c.Violate("panic|to-row-series", p)
+		return
+	}
+	if err2 != nil {
+		c.Violate("serialize-error|to-row-series", err2.Error())
+		return
+	}
+	c29Same(c, s, orig, got2, "|to-row-series")
+	c.Sample(map[string]any{"types": s.Types, "rows": s.Rows, "align": s.Align, "record_len": recLen})
+}
+
+// c29Same compares the columns read back with the originals.
+func c29Same(c *mc.Ctx, s c29Spec, orig, got *io.ColumnSeries, path string) bool {
+	if !reflect.DeepEqual(orig.GetColumnNames(), got.GetColumnNames()) {
+		c.Violate("column-names"+path, fmt.Sprintf("%v became %v", orig.GetColumnNames(), got.GetColumnNames()))
+		return false
 	}
 	for ci, nm := range orig.GetColumnNames() {
 		a, b := orig.GetColumn(nm), got.GetColumn(nm)
@@ -86,19 +112,19 @@ func c29Run(c *mc.Ctx, s c29Spec) {
 			ty = s.Types[ci-1]
 		}
 		if reflect.TypeOf(a) != reflect.TypeOf(b) {
-			c.Violate("column-type|"+ty, fmt.Sprintf("column %s: %T became %T", nm, a, b))
-			return
+			c.Violate("column-type|"+ty+path, fmt.Sprintf("column %s: %T became %T", nm, a, b))
+			return false
 		}
 		if lenOf(a) != lenOf(b) {
-			c.Violate("column-length|"+ty, fmt.Sprintf("column %s: %d values became %d (align=%v)", nm, lenOf(a), lenOf(b), s.Align))
-			return
+			c.Violate("column-length|"+ty+path, fmt.Sprintf("column %s: %d values became %d (align=%v)", nm, lenOf(a), lenOf(b), s.Align))
+			return false
 		}
 		for i := 0; i < lenOf(a); i++ {
 			if !sameVal(indexOf(a, i), indexOf(b, i)) {
-				c.Violate("column-value|"+ty, fmt.Sprintf("column %s row %d: %v became %v (align=%v, types %v)", nm, i, indexOf(a, i), indexOf(b, i), s.Align, s.Types))
-				return
+				c.Violate("column-value|"+ty+path, fmt.Sprintf("column %s row %d: %v became %v (align=%v, types %v)", nm, i, indexOf(a, i), indexOf(b, i), s.Align, s.Types))
+				return false
 			}
 		}
 	}
-	c.Sample(map[string]any{"types": s.Types, "rows": s.Rows, "align": s.Align, "record_len": recLen})
+	return true
 }
